@@ -219,6 +219,24 @@ def check_equal(rep, rule, key, where, actual, expected, what, undecided_note=''
                 CROSSCHECK['done' if agree else 'skipped'] += 1
         rep.holds(rule, key, where, what + ': normal forms identical')
     elif r == 'different':
+        a_ = actual.rat if isinstance(actual, CallV) else actual
+        e_ = expected.rat if isinstance(expected, CallV) else expected
+        agree = False
+        if isinstance(a_, Rat) and isinstance(e_, Rat):
+            try:
+                agree = alg.numeric_agree(a_, e_, _DefaultRanges(), trials=6, rel=1e-9)
+            except RecursionError:
+                agree = False
+        if agree:
+            # structurally different generators that take the same values on the domain (e.g. sqrt(c**2) and c for c >= 0): not a different function
+            note = conditioning_probe(a_, e_)
+            if note:
+                rep.violated('R-COND', key.replace(rule + '::', 'R-COND::', 1) + '::conditioning', where, what + ': equal to the reference on the domain, but computed through ' + note,
+                             expected=show(expected), actual=show(actual))
+                return 'different'
+            rep.undecided(rule, key, where, what + ': the forms are built from different generators but take the same values at every sampled point of the domain',
+                          expected=show(expected, 2, 300), actual=show(actual, 2, 300))
+            return 'unknown'
         rep.violated(rule, key, where, what + ': the code computes a different function than the reference formula',
                      expected=show(expected), actual=show(actual))
     else:
@@ -241,6 +259,11 @@ def check_equal(rep, rule, key, where, actual, expected, what, undecided_note=''
                 pt, va, vb = wit
                 rep.violated(rule, key, where, what + ': the code and the reference formula take different values, e.g. at %s: %.12g instead of %.12g' % (
                     ', '.join('%s=%.5g' % kv for kv in sorted(pt.items())[:8]), va.real, vb.real), expected=show(expected), actual=show(actual))
+                return 'different'
+            note = conditioning_probe(a_, e_)
+            if note:
+                rep.violated('R-COND', key.replace(rule + '::', 'R-COND::', 1) + '::conditioning', where, what + ': equal to the reference on the domain, but computed through ' + note,
+                             expected=show(expected), actual=show(actual))
                 return 'different'
         why = ''
         if isinstance(actual, Rat) and has_unknown(actual):
@@ -455,3 +478,204 @@ class _DefaultRanges(dict):
         if 'north' in n:
             return (1.0e6, 9.0e6)
         return (0.3, 0.9)
+
+
+# ------------------------------------------------------------------------------------------------ conditioning
+EDGE_EPS = 1e-7
+
+
+def edge_points(names):
+    """deterministic sample points at the edges of the domain: each symbol in turn near the end of its range (others interior), and
+    symbols of one family (lat1/lat2, lon1/lon2, lon/cm) nearly coincident"""
+    rng = _DefaultRanges()
+    interior = {}
+    for j, n in enumerate(sorted(names)):
+        lo, hi = rng[n]
+        interior[n] = lo + (hi - lo) * ((0.6180339887498949 + (j + 1) * 0.7548776662466927) % 1.0)
+
+    def ends(n):
+        low = n.lower()
+        if low.startswith('lat') or '.lat' in low:
+            return [90.0 - EDGE_EPS, -90.0 + EDGE_EPS, EDGE_EPS]
+        if low.startswith('lon') or '.lon' in low or low == 'cm':
+            return [EDGE_EPS, 180.0 - EDGE_EPS]
+        if low.startswith('az'):
+            return [EDGE_EPS, 90.0 + EDGE_EPS, 180.0 - EDGE_EPS, 270.0 + EDGE_EPS]
+        if 'dist' in low:
+            return [1e-3, 1e-1]
+        return []
+    pts = []
+    for n in sorted(names):
+        for v in ends(n):
+            p = dict(interior)
+            p[n] = v
+            pts.append(p)
+    fams = {}
+    for n in names:
+        stem = n.rstrip('0123456789')
+        fams.setdefault(stem, []).append(n)
+    for stem, ms in fams.items():
+        if len(ms) >= 2:
+            ms = sorted(ms)
+            p = dict(interior)
+            for m_ in ms[1:]:
+                p[m_] = p[ms[0]] + 1e-8
+            pts.append(p)
+            # both families coincident (two nearly identical points)
+            q = dict(p)
+            for stem2, ms2 in fams.items():
+                if stem2 != stem and len(ms2) >= 2:
+                    ms2 = sorted(ms2)
+                    for m_ in ms2[1:]:
+                        q[m_] = q[ms2[0]] + 1e-8
+            pts.append(q)
+            for v in ends(ms[0]):
+                r_ = dict(interior)
+                for m_ in ms:
+                    r_[m_] = v
+                pts.append(r_)
+    if 'lon' in names and 'cm' in names:
+        p = dict(interior)
+        p['lon'] = p['cm'] + 1e-6
+        pts.append(p)
+    return pts
+
+
+def _one_minus_square(node, func):
+    """the argument of the call is (after resolving local names) of the shape 1 - X**2 / 1 - X*X"""
+    import ast as _ast
+    e = node.args[0] if getattr(node, 'args', None) else None
+    hops = 0
+    while isinstance(e, _ast.Name) and func is not None and hops < 4:
+        hops += 1
+        defs = [st.value for st in _ast.walk(func.node) if isinstance(st, _ast.Assign) and len(st.targets) == 1 and isinstance(st.targets[0], _ast.Name)
+                and st.targets[0].id == e.id and st.lineno < node.lineno]
+        if not defs:
+            break
+        e = defs[-1]
+    if isinstance(e, _ast.BinOp) and isinstance(e.op, _ast.Sub) and isinstance(e.left, _ast.Constant) and e.left.value in (1, 1.0):
+        r = e.right
+        if isinstance(r, _ast.BinOp) and isinstance(r.op, _ast.Pow) and isinstance(r.right, _ast.Constant) and r.right.value == 2:
+            return True
+        if isinstance(r, _ast.BinOp) and isinstance(r.op, _ast.Mult) and _ast.dump(r.left) == _ast.dump(r.right):
+            return True
+    return False
+
+
+def full_range(n):
+    low = n.lower()
+    if 'inversef' in low:
+        return (150.0, 400.0)
+    if 'semimaj' in low or 'semimin' in low:
+        return (6.3e6, 6.4e6)
+    if low.startswith('lat') or '.lat' in low:
+        return (-90.0, 90.0)
+    if low.startswith('lon') or '.lon' in low or low == 'cm':
+        return (-180.0, 180.0)
+    if low.startswith('az'):
+        return (0.0, 360.0)
+    if 'dist' in low:
+        return (1e-3, 2.0e7)
+    if '@l' in low:
+        return (0.0, 3.1)
+    return _DefaultRanges()[n]
+
+
+def singular_point(u, kind, names, starts, shared):
+    """search the domain box for a point where the argument u reaches the singular value of the inverse function (|u| -> 1 for acos / asin,
+    u -> 0 for the square root): multi-start coordinate search on the numerically evaluated form; -> (point, value) or None"""
+    names = sorted(names)
+    ids = dict((n, alg.TABLE.syms[n].id) for n in names if n in alg.TABLE.syms)
+
+    def value(p):
+        env = dict((ids[n], v) for n, v in p.items() if n in ids)
+        for j, kk in enumerate(shared):
+            env[kk] = 0.3 + 0.6 * (((j + 1) * 0.3819660) % 1.0)
+        try:
+            return alg.evalf(u, env).real
+        except Exception:
+            return None
+
+    def badness(v):
+        if v is None:
+            return None
+        return abs(1.0 - abs(v)) if kind in ('acos', 'asin') else abs(v)
+    used = [n for n in names if n in ids and ids[n] in u.atoms(deep=True)]
+    if not used or len(used) > 8:
+        return None
+    best = None
+    evals = 0
+    for p0 in starts[:10]:
+        p = dict(p0)
+        b = badness(value(p))
+        if b is None:
+            continue
+        for rnd in range(3):
+            for n in used:
+                lo, hi = full_range(n)
+                span = (hi - lo)
+                centre = p[n]
+                for level in range(4):
+                    cands = [max(lo, min(hi, centre + span * (k_ - 6) / 12.0)) for k_ in range(13)]
+                    for c in cands:
+                        q = dict(p)
+                        q[n] = c
+                        evals += 1
+                        bq = badness(value(q))
+                        if bq is not None and bq < b:
+                            b, p = bq, q
+                    centre = p[n]
+                    span *= 0.15
+                if evals > 6000:
+                    break
+            if b < 1e-9 or evals > 6000:
+                break
+        if best is None or b < best[0]:
+            best = (b, p)
+        if b < 1e-9 or evals > 6000:
+            break
+    if best is not None and best[0] < 1e-9:
+        return best[1], value(best[1])
+    return None
+
+
+def conditioning_probe(actual, expected):
+    """when the code's form agrees with the reference numerically but is not the same computation: does it go through an inverse cosine /
+    sine, or a square root of 1 - X**2, that the reference does not use and whose argument reaches its singular point inside the domain?
+    -> description or None"""
+    from .symval import MATH_CALLS
+    if not (isinstance(actual, Rat) and isinstance(expected, Rat)):
+        return None
+    kinds = ('sqrt', 'acos', 'asin')
+
+    def special(r):
+        return set(k for k in r.atoms(deep=True) if alg.TABLE.atoms[k].kind == 'fn' and alg.TABLE.atoms[k].name in kinds)
+    only = special(actual) - special(expected)
+    if not only:
+        return None
+    names = set()
+    for k in set(actual.atoms(deep=True)) | set(expected.atoms(deep=True)):
+        a = alg.TABLE.atoms[k]
+        if a.kind == 'sym' and a.name != 'pi':
+            names.add(a.name)
+    pts = edge_points(names)
+    for k in sorted(only):
+        at = alg.TABLE.atoms[k]
+        u = at.args[0]
+        calls = [c for c in MATH_CALLS if isinstance(c[4], Rat) and k in c[4].atoms(deep=False)]
+        if at.name == 'sqrt':
+            if not any(_one_minus_square(c[2], c[0]) for c in calls):
+                continue
+        best = singular_point(u, at.name, names, pts, sorted(alg._shared_opaque(actual, expected)))
+        for p, val in ([best] if best is not None else []):
+            where_ = ''
+            if calls and calls[0][0] is not None and hasattr(calls[0][2], 'lineno'):
+                where_ = ' (%s:%d)' % (calls[0][0].module.relpath, calls[0][2].lineno)
+            pt = ', '.join('%s=%.9g' % kv for kv in sorted(p.items())[:6])
+            if at.name in ('acos', 'asin') and abs(val) > 1 - 1e-9:
+                return ('%s(...)%s of a quantity that reaches %.12g at %s: the inverse %s loses half of the significant digits there (error ~ sqrt(2e-16) of its result), '
+                        'where the reference formula does not use it' % (at.name, where_, val, pt, 'cosine' if at.name == 'acos' else 'sine'))
+            if at.name == 'sqrt' and abs(val) < 1e-9:
+                return ('sqrt(1 - X**2)%s with X**2 within %.3g of 1 at %s: the subtraction cancels all but a few digits of X, where the reference formula computes the '
+                        'quantity directly' % (where_, abs(val), pt))
+    return None
